@@ -222,7 +222,102 @@ pub fn run_history(h: &History) -> (HistStats, Option<(String, String)>) {
 }
 
 /// Seeded history generator. Weights vary per run (swarm); only API-legal histories are produced.
+fn advance(m: &mut Model, op: &Op) {
+    match op {
+        Op::Push(pc, ix) => {
+            m.push(*pc, *ix, 0);
+        }
+        Op::Pop => {
+            m.pop();
+        }
+        Op::Save(s, v) => m.save(*s, *v),
+        Op::AuxPush(v) => m.aux.push(*v),
+        Op::AuxPop => {
+            m.aux.pop();
+        }
+        Op::EnterAtomic => {
+            let d = m.depth();
+            m.aux.push(d)
+        }
+        Op::CommitAtomic => {
+            let c = m.aux.pop().unwrap();
+            m.cut(c)
+        }
+        Op::Cut(c) => m.cut(*c),
+    }
+}
+
+/// Large commits: one atomic group (sometimes two nested) spanning 8..40 alternatives, each of
+/// which writes most slots, then the commit, then abandoning the alternatives older than the group:
+/// the values restored there are the ones a commit that merges dozens of undo entries has to have
+/// kept. Random walks over the operation alphabet almost never build a commit this large.
+fn gen_deep_commit_history(rng: &mut Rng) -> History {
+    let n_slots = rng.range(3, 6);
+    let mut ops = Vec::new();
+    let val = |rng: &mut Rng| rng.below(3);
+    for s in 0..n_slots {
+        if rng.chance(2, 3) {
+            ops.push(Op::Save(s, val(rng)));
+        }
+    }
+    let outer = rng.range(1, 3);
+    for _ in 0..outer {
+        ops.push(Op::Push(rng.below(4), rng.below(4)));
+        for s in 0..n_slots {
+            if rng.chance(1, 2) {
+                ops.push(Op::Save(s, val(rng)));
+            }
+        }
+    }
+    ops.push(Op::EnterAtomic);
+    let levels = rng.range(8, 40);
+    let nested_at = if rng.chance(1, 3) { Some(rng.below(levels)) } else { None };
+    for l in 0..levels {
+        if Some(l) == nested_at {
+            ops.push(Op::EnterAtomic);
+        }
+        ops.push(Op::Push(rng.below(4), rng.below(4)));
+        for s in 0..n_slots {
+            if rng.chance(3, 4) {
+                ops.push(Op::Save(s, val(rng)));
+            }
+        }
+        if rng.chance(1, 6) {
+            ops.push(Op::Pop);
+        }
+    }
+    if nested_at.is_some() {
+        ops.push(Op::CommitAtomic);
+        if rng.chance(1, 2) {
+            ops.push(Op::Push(rng.below(4), rng.below(4)));
+            ops.push(Op::Save(rng.below(n_slots), val(rng)));
+        }
+    }
+    ops.push(Op::CommitAtomic);
+    for s in 0..n_slots {
+        if rng.chance(1, 3) {
+            ops.push(Op::Save(s, val(rng)));
+        }
+    }
+    for _ in 0..outer {
+        ops.push(Op::Pop);
+    }
+    // only histories legal for the API (decided on the model, as everywhere)
+    let mut m = Model::new(n_slots, 1_000_000);
+    let mut legal_ops = Vec::new();
+    for op in ops {
+        if legal(&op, &m) {
+            advance(&mut m, &op);
+            legal_ops.push(op);
+        }
+    }
+    History { n_slots, max_stack: 1_000_000, ops: legal_ops }
+}
+
 pub fn gen_history(rng: &mut Rng, thorough: bool) -> History {
+    if rng.chance(1, 12) {
+        return gen_deep_commit_history(rng);
+    }
     // the property's own bound is 3 slots and 3 values; the thorough tier also varies the width
     let n_slots = if thorough && rng.chance(1, 3) { rng.range(1, 5) } else { 3 };
     let max_stack = if rng.chance(1, 3) { rng.range(2, 8) } else { 1_000_000 };
@@ -261,28 +356,7 @@ pub fn gen_history(rng: &mut Rng, thorough: bool) -> History {
             continue;
         }
         // advance the model so that legality of later ops is known
-        match &op {
-            Op::Push(pc, ix) => {
-                m.push(*pc, *ix, 0);
-            }
-            Op::Pop => {
-                m.pop();
-            }
-            Op::Save(s, v) => m.save(*s, *v),
-            Op::AuxPush(v) => m.aux.push(*v),
-            Op::AuxPop => {
-                m.aux.pop();
-            }
-            Op::EnterAtomic => {
-                let d = m.depth();
-                m.aux.push(d)
-            }
-            Op::CommitAtomic => {
-                let c = m.aux.pop().unwrap();
-                m.cut(c)
-            }
-            Op::Cut(c) => m.cut(*c),
-        }
+        advance(&mut m, &op);
         ops.push(op);
     }
     History {
